@@ -43,6 +43,19 @@ def gen_block(g, idx, atypes):
                 inter["angles"].append({"atoms": [adj[b][0], b, adj[b][1]],
                                         "params": [str(g.choice([1, 2])), str(g.choice([100, 120, 150])), "50"], "meta": meta})
                 break
+    if inter["bonds"] and g.random() < 0.15:
+        # the same bond once more under another conditional, same parameters (two distinct terms)
+        twin = dict(inter["bonds"][0])
+        first = dict(inter["bonds"][0])
+        if not first["meta"]:
+            first["meta"] = {"ifdef": "FLEXIBLE"}
+            inter["bonds"][0] = first
+        twin = {"atoms": list(first["atoms"]), "params": list(first["params"]), "meta": {"ifdef": "MINIMIZE"}}
+        inter["bonds"].append(twin)
+    if n >= 3 and g.random() < 0.15:
+        # equal angle terms over the same three atoms listed around different centres (ring-like)
+        for tri in ([0, 1, 2], [1, 2, 0], [2, 0, 1]):
+            inter["angles"].append({"atoms": tri, "params": ["1", "60", "75"], "meta": {}})
     if n == 4 and shape == "chain" and g.random() < 0.4:
         inter["dihedrals"].append({"atoms": [0, 1, 2, 3], "params": ["1", "180", "2.5", "2"], "meta": {}})
     return {"name": name, "atoms": atoms, "inter": inter, "nrexcl": g.choice([1, 1, 1, 2, 3])}
@@ -98,6 +111,12 @@ def gen_ff(g, nblocks=None, uniform_nrexcl=True, itp_p=0.2):
             else:
                 sec.update(extra)
                 links.append({"resnames": names, "sections": sec})
+    for X in blocks:
+        if len(X["atoms"]) >= 2 and g.random() < 0.2:
+            # unordered ('*') asymmetric link: applies to a bonded residue pair in both directions
+            a, b = X["atoms"][0]["name"], X["atoms"][-1]["name"]
+            links.append({"resnames": names, "sections": {
+                "bonds": [{"atoms": [a, "*" + b], "params": ["6", str(round(g.uniform(0.4, 0.7), 3)), "1500"], "meta": {}}]}})
     for X in blocks:
         if g.random() < 0.3:
             # three-residue link along a chain of equal residues
